@@ -18,8 +18,8 @@ From PV Require Import Base.Prelude Model.Ping Model.PingFrame.
 Open Scope N_scope.
 
 Inductive tok : Set :=
-| TBegin (p : pid) (ok : bool) (shows_id : bool)   (* registration and send, nothing in between *)
-| TReg (p : pid)                                   (* registration only: the call is inside its send *)
+| TBegin (p : pid) (tmo : Z) (ok : bool) (shows_id : bool)   (* registration and send, nothing in between *)
+| TReg (p : pid) (tmo : Z)                                   (* registration only: the call is inside its send *)
 | TSent (p : pid) (ok : bool)                      (* that send returned *)
 | TBulk (n : N)                                    (* n address-error calls, one after the other *)
 | TFrame (f : bytes)
@@ -35,8 +35,8 @@ Definition frame_event (f : bytes) : event :=
 (* the events a token stands for in state s; None = Parse panics in the model *)
 Definition events_of (classify : bytes -> res (option N)) (s : state) (t : tok) : res (list event) :=
   match t with
-  | TBegin p ok _ => Ok [Begin p; Sent p ok]
-  | TReg p => Ok [Begin p]
+  | TBegin p tmo ok _ => Ok [Begin p tmo; Sent p ok]
+  | TReg p tmo => Ok [Begin p tmo]
   | TSent p ok => Ok [Sent p ok]
   | TBulk n => Ok [BulkFail n]
   | TFrame f =>
@@ -49,7 +49,10 @@ Definition events_of (classify : bytes -> res (option N)) (s : state) (t : tok) 
       end
   | TWait p =>
       match pget (pings s) p with
-      | Some pg => if p_closed pg || p_fired pg then Ok [End p] else Ok [Timeout p; End p]
+      | Some pg =>
+          if p_closed pg || p_fired pg then Ok [End p]
+          else (* nothing but its timer can end the call: time passes until the timer is due *)
+            Ok [Tick (Z.max (clock s) (t_armed (p_time pg) + t_eff (p_time pg))); Timeout p; End p]
       | None => Ok [End p]
       end
   | TTimeout p => Ok [Timeout p]
@@ -85,7 +88,7 @@ Fixpoint script_events (fix24 : bool) (classify : bytes -> res (option N)) (s : 
 Fixpoint begun (ts : list tok) : list (pid * bool) :=
   match ts with
   | [] => []
-  | TBegin p _ sh :: r => (p, sh) :: begun r
-  | TReg p :: r => (p, true) :: begun r
+  | TBegin p _ _ sh :: r => (p, sh) :: begun r
+  | TReg p _ :: r => (p, true) :: begun r
   | _ :: r => begun r
   end.
